@@ -208,7 +208,7 @@ def render(ctx, rep, cases):
 
 
 def run(ctx, rep):
-    n = ctx.n(3000, 60000)
+    n = ctx.n(3000, 20000)
     cases = [make(f"C24:{ctx.seed}:{i}") for i in range(n)]
     parts = list(common.chunks(cases, max(1, len(cases) // (common.NCPU * 2))))
     for part, res in zip(parts, common.pmap(lambda p: errs.errors_batch(ctx, [c["src"] for c in p]), parts)):
